@@ -349,7 +349,8 @@ class Tie:
             scap = rng.choice([1 << 17, 64, 7, 5, 1]) if n // max(mfs, 1) < 2000 or mfs == 0 else 1 << 17
             add(n, kind, mfs, cf, ops=ops, ccap=ccap, scap=scap, tag=cls)
         # one table that needs the chunked loader (more than SEEKABLE_BUFF_SIZE bytes of entries)
-        add(11200 if ctx.quick else 23000, "text", 1, 1, level=1, tag="long-table-cf")
+        # 21846 frames with checksums = 262169 table bytes: the entry loop refills inBuff twice and one entry straddles a refill
+        add(22000 if ctx.quick else 33500, "text", 1, 1, level=1, tag="long-table-cf")
         if not ctx.quick:
             add(17000, "zero", 1, 0, level=1, tag="long-table-nocf")
         return specs
@@ -1014,6 +1015,50 @@ class Tie:
             self.compare_corrupt(v, cs.get(v["id"], []), ms.get(v["id"], []))
         return bad
 
+    def phase_overlong_frame(self):
+        """Regression corpus case (was finding 'overlong-frame-unchecked', repaired in /repo by 943db3b): two 7-byte frames,
+        checksums on; the Raw block header of frame 0 is patched from size 7 to size 14, so the frame regenerates its own 7
+        bytes plus the next 7 archive bytes.  Before the repair ZSTD_seekable_decompress(dst, 8, 0) returned 8 with the surplus
+        byte 0x28 where content byte 0x37 belongs.  Every read must return an error or exactly the content slice."""
+        x = bytes(range(0x30, 0x30 + 14))
+        xp = self.blob(x, "x")
+        ap = self.path("overlong.zst")
+        rc, cl, cerr = self.run_c("content_file %s\ncinit 3 1 7\nfinish 1000 1000\nlog\nsave %s\n" % (xp, ap))
+        if rc != 0 or not os.path.exists(ap):
+            self.report(dict(kind="overlong-frame", rc=rc), "could not build the overlong-frame corpus archive", no_input=True)
+            return
+        arch = bytearray(open(ap, "rb").read())
+        if arch[:9] != bytes.fromhex("28b52ffd0000390000"):
+            core.log("C20: overlong-frame corpus: frame 0 is not a raw block any more (%s); case skipped" % arch[:9].hex())
+            return
+        arch[6] = 0x71
+        for mode in ("mem", "file", "cb"):
+            v = dict(s=None, arch=bytes(arch), cls="F0", note="frame 0 block header: Raw size 7 -> 14 (frame regenerates 14 bytes, table entry says 7), checksums on",
+                     log=[], cf=1, id="ol_" + mode, mode=mode, reads=[("r", 0, 8), ("r", 0, 14), ("r", 0, 7), ("r", 7, 7), ("r", 3, 9)])
+            v["apath"] = self.blob(v["arch"], "cor")
+            rc, cl, cerr = self.run_c("\n".join(["content_file %s" % xp] + self.corrupt_ctext(v)) + "\n", timeout=20, linebuf=True)
+            rl = [l for l in cl if l.startswith("r ")]
+            try:
+                if rc != 0 or len(rl) != len(v["reads"]):
+                    raise Fail("crash / hang (rc=%d) on the overlong-frame archive: %s" % (rc, cerr[-300:]))
+                for rd, ln in zip(v["reads"], rl):
+                    d = kv(ln)[2]
+                    off, n = rd[1], rd[2]
+                    if d["ret"].startswith("E"):
+                        continue
+                    if d["ret"] != str(n) or d.get("data", "-") != (x[off:off + n].hex() or "-"):
+                        self.report(self.corrupt_replay(v, extra=dict(kind="overlong-frame", failing_call=list(rd), observed=ln[:300], content_hex=x.hex())),
+                                    "a frame regenerating more than its seek-table entry says (content 30..3d, initCStream(level 3, checksumFlag 1, "
+                                    "maxFrameSize 7), archive byte 6 0x39 -> 0x71): ZSTD_seekable_decompress(dst, %d, %d) (%s access) returns %s with "
+                                    "bytes %s, content is %s - success with wrong data although checksums are on"
+                                    % (n, off, mode, d["ret"], d.get("data"), x[off:off + n].hex()))
+                        break
+                self.ctx.count(("overlong-frame", mode))
+            except Fail as e:
+                self.report(self.corrupt_replay(v, extra=dict(kind="overlong-frame")), "overlong-frame archive: " + str(e))
+            except (IndexError, KeyError, ValueError) as e:
+                self.report(self.corrupt_replay(v), "overlong-frame archive: unparsable output (%r)" % (e,), no_input=True)
+
     def phase_maxframes(self):
         """ZSTD_seekable_logFrame refuses the (MAXFRAMES+1)-th frame (hypothesis 'lenN log <= MAXFRAMES' of the table theorems is
         enforced by the code): direct oracle on the real code, 2^27 log entries (1.6 GB, ~1 s); the model's log_frame has the
@@ -1190,6 +1235,10 @@ def replay(ctx):
             hist = [tuple(r) for r in rp.get("history", [])]
             t.gen_reads = lambda s_: hist
         t.phase_archives()
+    elif kind == "overlong-frame":
+        t.phase_overlong_frame()
+    elif kind == "maxframes":
+        t.phase_maxframes()
     elif kind == "corrupt" and rp.get("archive_hex") is not None:
         v = dict(s=None, arch=bytes.fromhex(rp["archive_hex"]), cls="J", note=rp.get("note", ""), log=[], cf=0, id="k0", mode=rp.get("mode") or "mem",
                  reads=[tuple(r) for r in rp.get("reads", [])])
@@ -1221,7 +1270,7 @@ def run(ctx):
     r = ctx.prove()
     t = Tie(ctx, rng)
     import time as _time
-    for ph in (t.phase_rawtable, t.phase_archives, t.phase_corrupt, t.phase_short_frame, t.phase_maxframes):
+    for ph in (t.phase_rawtable, t.phase_archives, t.phase_overlong_frame, t.phase_corrupt, t.phase_short_frame, t.phase_maxframes):
         t0 = _time.time()
         ph()
         core.log("C20 %s: %.1fs (evaluations so far %d)" % (ph.__name__, _time.time() - t0, ctx.cov["evaluations"]))
